@@ -212,15 +212,15 @@ pub(crate) fn resources_args<T, R, A>(s: &mut State<T, R, A>) -> (&mut R, &mut A
 use super::{OpReturn, OpTarget, Submission};
 use crate::io_uring::verif_kernel as k;
 
-pub(crate) static mut MODEL_REQUESTS: u32 = 0;
-pub(crate) static mut MODEL_REQUEST: k::Sqe = k::ZERO_SQE;
-pub(crate) static mut MODEL_RESOLVED: u32 = 0;
+pub(crate) static mut MODEL_REQUESTS: crate::verif_stubs::V<u32> = crate::verif_stubs::V::new(0);
+pub(crate) static mut MODEL_REQUEST: crate::verif_stubs::V<k::Sqe> = crate::verif_stubs::V::new(k::ZERO_SQE);
+pub(crate) static mut MODEL_RESOLVED: crate::verif_stubs::V<u32> = crate::verif_stubs::V::new(0);
 
 pub(crate) fn model_reset() {
     unsafe {
-        MODEL_REQUESTS = 0;
-        MODEL_REQUEST = k::ZERO_SQE;
-        MODEL_RESOLVED = 0;
+        MODEL_REQUESTS.v = 0;
+        MODEL_REQUEST.v = k::ZERO_SQE;
+        MODEL_RESOLVED.v = 0;
     }
 }
 
@@ -245,7 +245,7 @@ where
         Status::Done { results } => {
             let result = results.next().unwrap();
             shared.status = Status::Complete;
-            unsafe { MODEL_RESOLVED += 1 };
+            unsafe { MODEL_RESOLVED.v += 1 };
             let resources = unsafe { data.tail.resources.get().cast::<R>().read() };
             match result.check_result() {
                 Ok(n) => task::Poll::Ready(Ok(map_ok(target, resources, (result.flags, n)))),
@@ -258,8 +258,8 @@ where
             fill_submission(target, resources, &mut data.tail.args, &mut sub);
             target.set_flags(&mut sub);
             unsafe {
-                MODEL_REQUEST = k::submission_view(&sub);
-                MODEL_REQUESTS += 1;
+                MODEL_REQUEST.v = k::submission_view(&sub);
+                MODEL_REQUESTS.v += 1;
             }
             task::Poll::Pending
         }
@@ -271,13 +271,13 @@ where
 /// really queued on the ring (native replay, where stubs do not apply and the
 /// real `poll_inner` runs against the static submission queue).
 pub(crate) fn requests() -> u32 {
-    unsafe { MODEL_REQUESTS + k::sq_tail() }
+    unsafe { MODEL_REQUESTS.v + k::sq_tail() }
 }
 
 pub(crate) fn last_request() -> k::Sqe {
     unsafe {
-        if MODEL_REQUESTS > 0 {
-            MODEL_REQUEST
+        if MODEL_REQUESTS.v > 0 {
+            MODEL_REQUEST.v
         } else {
             let mut e = k::sqe_view(k::sqe(((k::sq_tail().wrapping_sub(1)) & 3) as usize));
             // the real submission also carries the operation's user_data
@@ -308,8 +308,8 @@ where
     fill_submission(target, resources, &mut data.tail.args, &mut sub);
     target.set_flags(&mut sub);
     unsafe {
-        MODEL_REQUEST = k::submission_view(&sub);
-        MODEL_REQUESTS += 1;
+        MODEL_REQUEST.v = k::submission_view(&sub);
+        MODEL_REQUESTS.v += 1;
     }
     task::Poll::Pending
 }
@@ -333,8 +333,8 @@ where
     fill_submission(target, resources, &mut data.tail.args, &mut sub);
     target.set_flags(&mut sub);
     unsafe {
-        MODEL_REQUEST = k::submission_view(&sub);
-        MODEL_REQUESTS += 1;
+        MODEL_REQUEST.v = k::submission_view(&sub);
+        MODEL_REQUESTS.v += 1;
     }
     task::Poll::Pending
 }
